@@ -107,7 +107,7 @@ def register_sort_loops(reg):
                                              "w0 == len(writer)"],
         loops={
             1: Loop(fingerprint="while True", decreases="len(reader.lines) - reader.pos", invariant={
-                "reader-frame": "reader.lines == old(reader).lines and reader.offs == old(reader).offs and reader.idx == old(reader).idx",
+                "reader-frame": "same(reader.lines, old(reader).lines) and reader.offs == old(reader).offs and reader.idx == old(reader).idx",
                 "one-per-record": "reader.pos == len(gaf_alignments) and reader.pos <= len(reader.lines)",
                 "offsets": "forall(lambda j: implies(0 <= j < len(gaf_alignments), gaf_alignments[j].offset == reader.offs[j]))",
                 "keys": "forall(lambda j: implies(0 <= j < len(gaf_alignments), gaf_alignments[j].BO == rec(j)[0] and gaf_alignments[j].NO == rec(j)[1] "
@@ -115,7 +115,7 @@ def register_sort_loops(reg):
                 "writer-untouched": "writer == old(writer) and index_dict == old(index_dict)",
             }),
             2: Loop(index="it2", fingerprint="for alignment in gaf_alignments", invariant={
-                "reader-frame": "reader.lines == old(reader).lines and reader.offs == old(reader).offs and reader.idx == old(reader).idx",
+                "reader-frame": "same(reader.lines, old(reader).lines) and reader.offs == old(reader).offs and reader.idx == old(reader).idx",
                 "one-line-per-record": "len(writer) == w0 + it2",
                 "earlier-output-kept": "forall(lambda k: implies(0 <= k < w0, writer[k] == old(writer)[k]))",
                 "line-len": "forall(lambda k: implies(w0 <= k < w0 + it2, len(writer[k]) == 4))",
@@ -134,7 +134,10 @@ def register_sort_loops(reg):
             }, ghost_body_start="firstpos[alignment.sn] = ite(seen[alignment.sn], firstpos[alignment.sn], it2 - 1)\n"
                                 "lastpos[alignment.sn] = it2 - 1\nseen[alignment.sn] = True"),
         },
-        assert_at={"after:gaf_alignments.sort(": {
+        assert_at={"before:write_to_file(line, writer)": {
+            "this-contig-entry": "implies(not is_none(index_file), alignment.sn in index_dict and index_dict[alignment.sn][1] == woff(w0 + it2 - 1) and "
+                                 "index_dict[alignment.sn][0] == woff(w0 + firstpos[alignment.sn]) and lastpos[alignment.sn] == it2 - 1)"},
+                   "after:gaf_alignments.sort(": {
             "sorted-len": "len(gaf_alignments) == R()",
             "sorted-offsets": "forall(lambda t: implies(0 <= t < R(), 0 <= sort_perm_inv[t] < R() and gaf_alignments[t].offset == reader.offs[sort_perm_inv[t]] "
                               "and reader.idx[gaf_alignments[t].offset] == sort_perm_inv[t]))",
